@@ -3,6 +3,7 @@ package main
 
 import (
 	"fmt"
+	"math"
 	"math/rand"
 	"strings"
 	"time"
@@ -175,6 +176,14 @@ func run(c *mon.Case) {
 		if r.Intn(20) == 0 { // the production call: indent 1, width 80
 			indent, width = 1, 80
 		}
+		if r.Intn(25) == 0 {
+			// very wide screens ("never wrap"): the extremes of the integer range
+			width = []int{math.MaxInt, math.MaxInt - 1, math.MaxInt - 7, math.MaxInt32, math.MaxInt32 + 1, 1 << 40, math.MaxInt/2 + 1, 100000}[r.Intn(8)]
+			if r.Intn(2) == 0 {
+				indent = 0
+			}
+			c.Count("huge_widths", 1)
+		}
 		check(c, s, indent, width, true)
 		c.Count("ascii_texts", 1)
 		if sub%10 == 0 {
@@ -193,8 +202,8 @@ func run(c *mon.Case) {
 
 func main() {
 	mon.Main(mon.Spec{
-		Prop: "C29",
-		Rule: "case = (text, indent, width): printable-ASCII single-line texts of 0..300 characters without leading spaces (word lengths 1..12, long words 20..120, runs of 1..6 spaces), indent 0..9, widths leaving 1..80 characters (1 and 2..5 over-represented; the production call indent=1,width=80 included); UTF-8 variants for crash/termination only; non-trivial = text needing >=2 output lines, distinct by (indent,width,text)",
+		Prop:        "C29",
+		Rule:        "case = (text, indent, width): printable-ASCII single-line texts of 0..300 characters without leading spaces (word lengths 1..12, long words 20..120, runs of 1..6 spaces), indent 0..9, widths leaving 1..80 characters (1 and 2..5 over-represented; the production call indent=1,width=80 included; one case in 25 with a huge width up to the maximal integer); UTF-8 variants for crash/termination only; non-trivial = text needing >=2 output lines, distinct by (indent,width,text)",
 		Explanation: "oracle: every output line starts with exactly indent tabs and its remainder fits width-8*indent; the non-space characters of all lines concatenated equal those of the input; a line break inside a word is allowed only if the whole word is longer than the room; the call must return (20 s watchdog on a microsecond computation, reported as a violation of the termination clause) and not panic",
 		Assumptions: []string{"format reached through the verif hook consoleui.VerifFormat"},
 		Cases: func(t string) int {
